@@ -1,2 +1,3 @@
+@property
 def spec(self):
     return self.get_cell(self.__feedfwd_connection_name, self.__feedfwd_neuron_name)
